@@ -62,17 +62,17 @@ pub fn instantiate(
 
 pub fn create_accounts(deps: &mut DepsMut, accounts: &[Cw20Coin]) -> StdResult<Uint128> {
     // a repeated address would overwrite the earlier balance while still being counted in the
-    // total supply, leaving the supply above the sum of balances forever (as in cw20-base)
-    let mut addresses = accounts.iter().map(|c| &c.address).collect::<Vec<_>>();
-    addresses.sort();
-    addresses.dedup();
-    if addresses.len() != accounts.len() {
-        return Err(StdError::generic_err("Duplicate initial balance addresses"));
-    }
-
+    // total supply, leaving the supply above the sum of balances forever (as in cw20-base).
+    // Balances are keyed by the canonical address, so that is what must not repeat: two
+    // spellings of one address (e.g. bech32 in lower and in upper case) are the same account.
+    let mut seen = Vec::with_capacity(accounts.len());
     let mut total_supply = Uint128::zero();
     for row in accounts {
         let address = deps.api.addr_canonicalize(&row.address)?;
+        if seen.contains(&address) {
+            return Err(StdError::generic_err("Duplicate initial balance addresses"));
+        }
+        seen.push(address.clone());
         BALANCES.save(deps.storage, address.as_slice(), &row.amount)?;
         total_supply += row.amount;
     }
